@@ -129,6 +129,12 @@ macro_rules! lat_exact {
                                      "no position only when the two reports are in different longitude-zone bands"),
                     Some(p) => {
                         let want = if $odd_last { r1 } else { r0 };
+                        // a pair whose two latitudes lie in different NL bands has no common number of longitude
+                        // zones: any longitude computed from it is wrong for all but special longitude counts
+                        // (here the counts are 0 and the longitude happens to be 0 either way), so the decoder must
+                        // not return a position for it (DO-260B A.1.7.7 e)
+                        vassert!(nl_ref(r0) == nl_ref(r1) || nl_borderline(r0) || nl_borderline(r1),
+                                 "a position is returned only when both reports are in the same longitude-zone band");
                         vassert!(p.latitude >= -90.0 && p.latitude <= 90.0, "latitude in [-90, 90]");
                         vassert!(close(p.latitude, want), "latitude is the centre of the true cell");
                         vassert!(p.longitude >= -180.0 && p.longitude < 180.0, "longitude in [-180, 180)");
